@@ -16,7 +16,7 @@ import (
 
 func init() {
 	sim.Register(&sim.Prop{
-		ID: "C01", Run: runC01, QuickRuns: 120000, ThoroughRuns: 3000000,
+		ID: "C01", Run: runC01, QuickRuns: 120000, ThoroughRuns: 8000000,
 		Rule:        "Each run: a record of 1..40 primitive items (bool, i8, i16, i32, i64, double by bit pattern, string/binary of boundary lengths with arbitrary content, field/list/set/map/message headers with any type byte, id and size) is (a) written with thrift.BufferWriter over bufiox.DefaultWriter over a simulated Sink with tape-chosen flush points and buffer growth inside the record, (b) read back with thrift.BufferReader over bufiox.DefaultReader over a simulated Source under a per-run fragmentation profile with Release between items, and (c) as a by-product pushed through the in-place writer, the append writer, the *Length functions and the buffer readers. Oracle: independent reference encoding (big-endian, 4-byte length prefixes).",
 		Components:  realComponents,
 		Probes:      []string{"string_straddles_4096", "flush_inside_record", "release_inside_record", "writer_growth_inside_record", "nan_payload"},
